@@ -463,8 +463,12 @@ def chain_id_form(f, cid, env, listvar):
         if isinstance(a1, ast.ListComp) and len(a1.generators) == 1 and not a1.generators[0].ifs and isinstance(a1.generators[0].target, ast.Name):
             hv = a1.generators[0].target.id
             lst = U(a1.generators[0].iter)
-            if U(a1.elt) == f"{hv}.n_thetas" and U(a0).replace(" ", "") == f"np.arange(len({lst}))":
+            if U(a1.elt) == f"{hv}.n_thetas" and U(a0).replace(" ", "") in (f"np.arange(len({lst}))", f"np.arange(len({lst}),dtype=int)"):
                 return over(lst, False)
+        while isinstance(a1, ast.Call) and call_name(a1) in ("int", "np.array", "np.asarray") and a1.args:
+            a1 = inline(a1.args[0], env)
+        if (isinstance(a1, ast.BinOp) and isinstance(a1.op, (ast.Div, ast.FloorDiv))) or isinstance(a1, (ast.Attribute, ast.Constant)):
+            return f"every chain label is repeated the same number of times (`{U(a1)[:60]}`): chains of different lengths are mislabelled"
         return None
     # loop-extend into a list that starts empty
     base = None
